@@ -22,6 +22,7 @@ func init() {
 			rulePoolReleaseOnce(c, "R7")
 			ruleGroupOptionOrder(c, "R8")
 			ruleReadersWriteNothing(c, "R9")
+			ruleNodeMethodSetReadOnce(c, "R10")
 		},
 	})
 }
